@@ -22,6 +22,13 @@ MK = N.MARKER
 FILTERS = ['a', 'b and not a', 'c or a', 'not c']
 ASTS = {'a': ('has', ('a',)), 'b and not a': ('and', ('has', ('b',)), ('not', ('a',))), 'c or a': ('or', ('has', ('c',)), ('has', ('a',))),
         'not c': ('not', ('c',))}
+# two filters whose string / URI literals hold escapes: compiling them runs the shared literal decoders of the ZINC grammar
+ESC_A, ESC_B = 'd == "A\\tone\\ttwo"', 'd == "B\\nxx\\nyy\\nzz"'
+ESC_U, ESC_V = 'u == `a\\:b\\/c`', 'u == `x\\?y\\&z`'
+ASTS[ESC_A] = ('cmp', '==', ('d',), ('str', 'A\tone\ttwo'))
+ASTS[ESC_B] = ('cmp', '==', ('d',), ('str', 'B\nxx\nyy\nzz'))
+ASTS[ESC_U] = ('cmp', '==', ('u',), ('uri', 'a:b/c'))
+ASTS[ESC_V] = ('cmp', '==', ('u',), ('uri', 'x?y&z'))
 SKIP_FUNCS = ('<lambda>', '_get_path', '_generate_filter_in_python', 'to_dict', '<module>', '<listcomp>', '<genexpr>')
 
 
@@ -33,17 +40,19 @@ def rows_neutral():
             if b:
                 r[t] = MK
         rows.append(r)
+    rows[0]['d'], rows[1]['d'], rows[2]['d'] = ('str', 'A\tone\ttwo'), ('str', 'B\nxx\nyy\nzz'), ('str', 'B\nxx')
+    rows[3]['u'], rows[4]['u'] = ('uri', 'a:b/c'), ('uri', 'x?y&z')
     return rows
 
 
 ROWS = rows_neutral()
-EXPECTED = {f: tuple(r['id'][1] for r in ROWS if RF.evaluate(ASTS[f], r, ROWS) is True) for f in FILTERS}
+EXPECTED = {f: tuple(r['id'][1] for r in ROWS if RF.evaluate(ASTS[f], r, ROWS) is True) for f in ASTS}
 
 
 def mkgrid(hs):
-    g = hs.Grid(version='3.0', columns=[('id', []), ('a', []), ('b', []), ('c', [])])
+    g = hs.Grid(version='3.0', columns=[('id', []), ('a', []), ('b', []), ('c', []), ('d', []), ('u', [])])
     for r in ROWS:
-        g.append({k: (v[1] if v[0] == 'str' else hs.MARKER) for k, v in r.items()})
+        g.append({k: (v[1] if v[0] == 'str' else (hs.Uri(v[1]) if v[0] == 'uri' else hs.MARKER)) for k, v in r.items()})
     return g
 
 
@@ -53,6 +62,10 @@ def traced(code):
         return code.co_name not in SKIP_FUNCS
     if fn.endswith('hszinc/grid.py'):
         return code.co_name == 'filter'
+    if fn.endswith('hszinc/zincparser.py'):
+        # the literal decoders the filter grammar shares with the ZINC reader (named functions and methods; parse-action lambdas
+        # are single expressions)
+        return code.co_name not in ('<lambda>', '<module>', '<listcomp>', '<genexpr>', '<dictcomp>')
     return False
 
 
@@ -649,9 +662,10 @@ def run(ctx):
     # (threads, cache capacity, preemption bound, filter calls per thread)
     if ctx.quick:
         todo = [(['a', 'b and not a'], None, 2, 2), (['a', 'a'], None, 1, 2), (['a', 'b and not a'], 1, 1, 2),
-                (['a', 'b and not a', 'c or a'], None, 1, 2), (['a', 'b and not a', 'a'], 2, 1, 2)]
+                (['a', 'b and not a', 'c or a'], None, 1, 2), (['a', 'b and not a', 'a'], 2, 1, 2),
+                ([ESC_A, ESC_B], None, 1, 1), ([ESC_U, ESC_V], None, 1, 1)]
     else:
-        todo = [(['a', 'b and not a'], None, 3, 1), (['a', 'b and not a'], None, 2, 2), (['a', 'a'], None, 2, 2), (['a', 'b and not a'], 1, 2, 2),
+        todo = [([ESC_A, ESC_B], None, 2, 1), ([ESC_U, ESC_V], None, 2, 1), ([ESC_A, ESC_U, ESC_B], None, 1, 1), (['a', 'b and not a'], None, 3, 1), (['a', 'b and not a'], None, 2, 2), (['a', 'a'], None, 2, 2), (['a', 'b and not a'], 1, 2, 2),
                 (['a', 'b and not a', 'c or a'], None, 2, 1), (['a', 'b and not a', 'c or a'], None, 1, 2), (['a', 'b and not a', 'a'], 2, 2, 1)]
     bounds = [{'threads': plan, 'cache_capacity': cap or 'real', 'preemption_bound': bound, 'filter_calls_per_thread': calls} for plan, cap, bound, calls in todo]
     rounds = explore_plan_set(todo, ctx, st)
